@@ -95,6 +95,14 @@ theorem agg_mul (l : List α) : CostAggregation.mul.agg l = if l = [] then 0 els
   | nil => simp [CostAggregation.agg]
   | cons a l => simp [CostAggregation.agg, List.prod_eq_foldl]
 
+theorem list_prod_eq_zero (l : List α) (h : (0 : α) ∈ l) : l.prod = 0 := by
+  induction l with
+  | nil => simp at h
+  | cons a l ih =>
+    rcases List.mem_cons.mp h with h | h
+    · simp [← h]
+    · simp [ih h]
+
 theorem aggIter_map_some {ι : Type} (a : CostAggregation) (l : List ι) (f : ι → Option α) (g : ι → α)
     (h : ∀ i ∈ l, f i = some (g i)) : a.aggIter (l.map f) = some (a.agg (l.map g)) := by
   simp [CostAggregation.aggIter, allSome_map_some l f g h]
